@@ -84,7 +84,7 @@ def Post {α : Type} (c : Ctx) (s0 : PState) (δ : Nat) (X : α → PState → P
   InvB 2 c s ∧ μ s + δ ≤ μ s0 ∧ nsz s0 ≤ nsz s ∧ X a s
 
 /-- the id of a `Meta` is an index of the span table -/
-def Vid (a : Node) (s : PState) : Prop := a.id < nsz s
+abbrev Vid (a : Node) (s : PState) : Prop := a.id < nsz s
 
 /-! ## spans -/
 
